@@ -134,6 +134,16 @@ def gen_plan(prop, seed, tier):
                 op["nnodes"] = need + rng.randint(0, 3)
             if what == "function":
                 op["poly"] = [M.enc(Fraction(rng.randint(-5, 5), rng.choice([1, 2, 3]))) for _ in range(rng.randint(1, p + 1))]
+                if rng.random() < 0.3:
+                    # the integrand is itself a Curve object defined on a LARGER interval, with an interior knot outside the
+                    # interval of integration (so it is one polynomial on every span of the knot vector that is integrated over)
+                    op["gcurve"] = {"p": rng.randint(1, 3), "ext": M.enc(Fraction(rng.randint(1, 4), rng.choice([1, 2]))),
+                                    "pts": [M.enc(Fraction(rng.randint(-9, 9), rng.choice([1, 2, 3]))) for _ in range(5)]}
+                    if "nnodes" in op:
+                        op["nnodes"] = max(op["nnodes"], 4)
+                    else:
+                        op["method"] = rng.choice(sorted(METHODS))
+                        op["nnodes"] = {"closed-newton-cotes": 4, "open-newton-cotes": 4, "chebyshev": 4, "gauss-legendre": 2}[op["method"]] + rng.randint(0, 2)
             if rng.random() < fault_rate:
                 op["func_fault"] = rng.randint(0, 6)
         else:
@@ -248,6 +258,24 @@ class MemoEngine:
                 pts = [self.np.array([M.dec(x) for x in pt], dtype=object) for pt in spec["pts"]]
         return self.lib.Curve(L, pts)
 
+    def gcurve_spec(self, op):
+        """Knots / points of the integrand curve: same left end as the integrated interval, right end beyond it, one interior
+        knot strictly to the right of the integrated interval."""
+        spec = op["curve"]
+        lo, hi = M.dec(spec["knots"][0]), M.dec(spec["knots"][-1])
+        ext = M.dec(op["gcurve"]["ext"])
+        q = op["gcurve"]["p"]
+        inner = hi + ext / 2
+        L = [lo] * (q + 1) + [inner] + [hi + ext] * (q + 1)
+        P = [M.dec(x) for x in op["gcurve"]["pts"][: q + 2]]
+        return L, P
+
+    def build_gcurve(self, op):
+        L, P = self.gcurve_spec(op)
+        cls = op["cls"]
+        conv = (lambda v: float(v)) if cls == "float" else (lambda v: v)
+        return self.lib.Curve([conv(x) for x in L], [conv(x) for x in P])
+
     def model_state(self, spec):
         L = []
         for k, m in zip(spec["knots"], spec["mults"]):
@@ -286,6 +314,9 @@ class MemoEngine:
             Integrate = self.calculus.Integrate
             fault_at = op.get("func_fault")
             calls = [0]
+            if what == "function" and "gcurve" in op:
+                g = self.build_gcurve(op)
+                return {"value": Integrate.function(curve.knotvector, g, method, nnodes)}
             if what == "function":
                 coefs = [self.mk(c, op["cls"]) for c in op["poly"]]
 
@@ -533,6 +564,11 @@ class MemoEngine:
                     exp = term if exp is None else M._pt_add(exp, term)
                 self.compare_value(ctx, "closed-rule-at-discontinuity" if closed_at_jump else klass,
                                    "Integrate.scalar", ans["value"], exp, exact)
+            elif what == "function" and "gcurve" in op:
+                gL, gP = self.gcurve_spec(op)
+                breaks, comps = M.pieces((gL, gP, None))
+                exp = M.p_int(comps[0]["num"][0], L[0], L[-1])      # the integrated interval lies inside the integrand's first span
+                self.compare_value(ctx, klass, "Integrate.function(curve object)", ans["value"], exp, exact)
             elif what == "function":
                 coefs = [M.dec(c) for c in op["poly"]]
                 exp = M.p_int(coefs, L[0], L[-1])
